@@ -89,13 +89,14 @@ MUTATORS = ["add", "addlist", "setitem", "delitem", "update", "update_extend", "
             "popall", "poplast", "popitem", "clear"]
 MAKERS = ["new", "fromkeys", "copy"]
 READS = ["items", "keys", "values", "len", "iter", "reversed", "get", "getlist", "getitem", "contains", "todict",
-         "counts", "inverted", "sorted", "sortedvalues", "repr", "eq"]
+         "counts", "inverted", "sorted", "sortedvalues", "repr", "eq", "view"]
+VIEWS = ["ViewKeys", "ViewValues", "ViewItems", "DictOf", "Truth"]
 KEYFNS = ["KfKey", "KfVal", "KfLex", "KfValPar", "KfConst"]
 PAIR_KINDS = ["list", "tuple", "gen", "iter", "lol"]
 MAP_KINDS = ["dict", "odict", "proxy", "keysobj"]
 BAD = ["updatebad", "updatebad", "extendbad", "extendbad", "addlistbad", "badkey"]
 BADKINDS = ["BkInt", "BkLong", "BkShort", "BkUnhashable"]
-N_BADKEY = 14
+N_BADKEY = 17
 REMOVERS = {"setitem", "delitem", "update", "ior", "pop", "popall", "poplast", "popitem", "clear"}
 
 
@@ -260,6 +261,8 @@ def _gen_case(rng, tier):
             op.update(f=rng.choice(KEYFNS), rev=rng.random() < 0.4)
         elif n == "or":
             op.update(m=mapping(), refl=rng.random() < 0.5)
+        elif n == "view":
+            op.update(w=rng.choice(VIEWS))
         elif n in ("updatebad", "extendbad"):
             op.update(l=pairs(4), b=rng.choice(BADKINDS), it=rng.choice(["list", "tuple", "gen", "iter"]))
         elif n == "addlistbad":
@@ -589,6 +592,28 @@ def _do(OMD, regs, op):
         if type(x) is not tuple or x[0] != "ok" or type(x[1]) is not list:
             return UNREP, spoil
         return _c_pairs(x[1]), spoil
+    if n == "view":
+        w = op["w"]
+        if w == "ViewKeys":
+            vw = d.viewkeys()
+            x = list(vw)
+            if len(vw) != len(x) or any((k in vw) is not True for k in x) or (JUNK in vw):
+                return UNREP, spoil
+            return ["list", [tok(k) for k in x]], spoil
+        if w == "ViewValues":
+            return ["list", [tok(v) for v in d.viewvalues()]], spoil
+        if w == "ViewItems":
+            vw = d.viewitems()
+            x = list(vw)
+            if len(vw) != len(x):
+                return UNREP, spoil
+            return _c_pairs(x), spoil
+        if w == "DictOf":
+            x = dict(d)
+            spoil.append(x)
+            return _c_pairs(list(x.items())), spoil
+        x = bool(d)
+        return ["bool", x], spoil
     if n == "or":
         m = _map_arg(op["m"], "dict")
         x = (m | d) if op["refl"] else (d | m)
@@ -637,7 +662,16 @@ def _do(OMD, regs, op):
             return ["bool", u in d], spoil
         if i == 12:
             return val(d.setdefault(u, v)), spoil
-        return val(d.addlist(u, [v])), spoil
+        if i == 13:
+            return val(d.addlist(u, [v])), spoil
+        if i == 14:
+            OMD([], [])                      # more than one positional argument
+            return val(None), spoil
+        if i == 15:
+            OMD.fromkeys([u], v)
+            return val(None), spoil
+        OMD([(u, v)])
+        return val(None), spoil
     if n == "eq":
         w = op["w"]
         if w == "other":
@@ -790,6 +824,8 @@ def _op(op):
         return "AddListBad %s" % _n(op["k"])
     if n == "badkey":
         return "BadKey %s" % _n(op["n"])
+    if n == "view":
+        return op["w"]
     if n == "eq":
         w, ne = op["w"], _b(op["ne"])
         if w == "other":
@@ -886,6 +922,8 @@ def distribution(d, case, obs):
             n = "eq:" + op["w"] + (":ne" if op["ne"] else "")
         if n == "copy":
             n = "copy:" + op["c"]
+        if n == "view":
+            n = "view:" + op["w"]
         ops[n] = ops.get(n, 0) + 1
         if o["res"][0] in ("raise", "raised"):
             errs[op["op"] + ":" + o["res"][1]] = errs.get(op["op"] + ":" + o["res"][1], 0) + 1
@@ -912,6 +950,32 @@ def distribution(d, case, obs):
 if __import__("os").environ.get("C01_NO_SHRINK"):      # used only by the mutant-validation script (speed)
     def shrink(case):
         return iter(())
+
+
+def extra_evidence(results):
+    """Spec validation (testing the SPEC, not the code): the generator's independent Python pair-list
+    reference (_shadow) is compared with the snapshots on which Coq found holds=true; a disagreement would
+    point at a wrong Spec (or shadow).  Reported only, never part of a verdict."""
+    same = diff = 0
+    first = None
+    for r in results:
+        if r.get("abnormal") or not (r["agree"] and r["holds"]):
+            continue
+        regs = [[], []]
+        for op, o in zip(r["case"]["ops"], r["obs"]):
+            failed = o["res"][0] == "raise"
+            if op["op"] not in READS and op["op"] not in ("or", "addlistbad", "badkey") and not failed:
+                _shadow(regs, op["r"], op)
+            s = o["snap"]
+            if s and s != "raise":
+                for reg in (0, 1):
+                    if [list(p) for p in regs[reg]] == [list(p) for p in s[reg][0]]:
+                        same += 1
+                    else:
+                        diff += 1
+                        first = first or {"ops": r["case"]["ops"][:8], "shadow": regs[reg], "observed": s[reg][0]}
+    return {"spec_validation": {"what": "independent python pair-list reference vs snapshots accepted by the Coq Spec",
+                                "snapshots_equal": same, "snapshots_different": diff, "first_difference": first}}
 
 
 def sample(case, obs):
